@@ -65,7 +65,8 @@ def cli_cases(chk, seed, n):
             home = os.path.join(d, "home")
             fmt = r.choice(["default", "json"])
             o = {"hash_fn": "metro"}
-            res, gargv = gm.run_group(o, spec["roots"], troot, home, fmt=fmt)
+            amb = common.ambient_env(r, elsewhere=d)
+            res, gargv = gm.run_group(o, spec["roots"], troot, home, fmt=fmt, extra_env=amb)
             if res.rc != 0:
                 chk.note_inconclusive("group failed")
                 continue
@@ -80,7 +81,7 @@ def cli_cases(chk, seed, n):
             cuts = [len(res.out)] + [r.randrange(0, len(res.out)) for _ in range(4)]
             for cut in cuts:
                 data = res.out[:cut]
-                dres, dargv = dd.run_dedupe("remove", {"dry_run": True}, data, troot, home)
+                dres, dargv = dd.run_dedupe("remove", {"dry_run": True}, data, troot, home, extra_env=amb)
                 w = dict(witness, cut=cut, total=len(res.out), rc=dres.rc, stderr=dres.err_text()[-800:],
                          script=dres.out.decode("utf-8", "replace")[:2000])
                 if "panicked" in dres.err_text():
@@ -108,7 +109,7 @@ def cli_cases(chk, seed, n):
                 if cut == len(res.out):
                     # the same bytes, delivered in two pieces: same script, same verdict
                     first = r.choice([1, 2, 5, 12, 19, 20, 64, max(1, len(data) // 2)])
-                    crc, cout, cerr = run_chunked([fse(a) for a in dargv], common.pinned_env(home), troot, data, min(first, len(data)))
+                    crc, cout, cerr = run_chunked([fse(a) for a in dargv], common.pinned_env(home, amb), troot, data, min(first, len(data)))
                     chk.count("cli_reports_delivered_in_two_pieces")
                     if crc != dres.rc or cout != dres.out:
                         w2 = dict(w, first_piece=first, chunked_rc=crc, chunked_stderr=cerr.decode("utf-8", "replace")[-500:])
